@@ -193,6 +193,8 @@ def run(prop, replay_file=None):
             if not r.ok:
                 rep.machinery.append("the specification itself violates %s on instance %s (spec error, not a code defect)"
                                      % (r.violated, name))
+        if prop == "C01":
+            apalache_ledger(rep, w)
         if prop == "C04":
             # progress: under fairness of "an update in exchange hours happens", every submitted order is eventually
             # filled; checked on an instance that is finite without any state constraint.  Without the fairness
@@ -451,6 +453,34 @@ def validate_random_traces(rep, prop, w, n, sd):
                             calls=[e["call"] for e in chunk[0]["ev"][:10]]))
     rep.cov["trace_events"] = nev
     return nvalid, feats
+
+
+def apalache_ledger(rep, w):
+    """Bonus beyond TLC's bounded amounts: Apalache discharges the inductive invariant of the cash ledger
+    (specs/apalache/LedgerInd.tla: C01_Ledger and C01_ZeroSum with symbolic integers).  A refutation is a
+    specification error; a tool failure or time-out is only noted (nothing else depends on it)."""
+    import subprocess
+    out_dir = os.path.join(w, "apa")
+    res = {}
+    for label, args in (("initial state satisfies the invariant", ["--init=Init", "--inv=IndInv", "--length=0"]),
+                        ("invariant is inductive", ["--init=IndInit", "--inv=IndInv", "--length=1"])):
+        try:
+            p = subprocess.run(["apalache-mc", "check"] + args + ["--out-dir=" + out_dir, "LedgerInd.tla"], cwd=w,
+                               stdout=subprocess.PIPE, stderr=subprocess.STDOUT, timeout=600)
+            txt = p.stdout.decode("utf-8", "replace")
+            if "EXITCODE: OK" in txt and "NoError" in txt:
+                res[label] = "discharged"
+            elif "violat" in txt.lower() and "EXITCODE: ERROR" in txt:
+                res[label] = "REFUTED"
+                rep.machinery.append("Apalache refutes the ledger invariant (%s) - specification error" % label)
+            else:
+                res[label] = "tool failure"
+                rep.warnings.append("Apalache could not be run for '%s': %s" % (label, txt[-300:]))
+        except Exception as e:
+            res[label] = "not run (%s)" % type(e).__name__
+            rep.warnings.append("Apalache not run for '%s': %s" % (label, e))
+    shutil.rmtree(out_dir, ignore_errors=True)
+    rep.cov["apalache_inductive_ledger"] = res
 
 
 def position_direct_conformance(rep, w, t, sd):
